@@ -209,6 +209,20 @@ def oracle (toks : List String) (res : List String) : Option String := do
     match decodeOptions (b.take k) with
     | some [Opt.sack bl] => pure (chk (bl == (pairsOf r).take l && k == l * 8 + 2) "sack-encode")
     | _ => pure "bad sack-encode"
+  | ["tcpopts", h], parsed =>
+    -- a list that is well formed under the strict RFC grammar, with at most one timestamp and one SACK option:
+    -- the parser must recover exactly those
+    let b ← hexN h
+    match decodeOptions b with
+    | none => pure "ok"
+    | some opts =>
+      let tss := opts.filterMap (fun o => match o with | .ts v e => some (v, e) | _ => none)
+      let sacks := opts.filterMap (fun o => match o with | .sack bl => some bl | _ => none)
+      if tss.length > 1 || sacks.length > 1 then pure "ok" else
+      let (tsb, tv, te) := match tss with | [(v, e)] => ("true", toString v, toString e) | _ => ("false", "0", "0")
+      let blocks : Option (List (Nat × Nat)) := match sacks with | [bl] => some (bl.take 4) | _ => none
+      let exp := [tsb, tv, te, showBlocks blocks]
+      pure (chk (parsed == exp) "tcp-options-wellformed-list-not-recovered")
   | ["pad", off], [r] => let o ← off.toNat?; let r ← r.toNat?; pure (chk ((o + r) % 4 == 0 && r < 4) "padding")
   | _, r => pure (if r == ["panic"] then "bad parser-panic" else "ok")
 
